@@ -3,7 +3,21 @@
 COMMON_MODEL = "Go runtime, reflect, sync and the standard library are not modelled"
 
 PROPS = {
+    "C15": dict(
+        level_text="Coq theorems over all operation histories: every live map object agrees with a reference dictionary keyed by value equality on Has/Get/Len and listings (bindings, distinct keys, count, iteration order), operations return the same object as the reference, the representation invariant holds in every reachable state, the code's binary search equals a linear scan, and no operation changes any object but the mutable map it targets (snapshots are frames). Tied to pkg/types/map.go by replaying generated histories (colliding keys, overwrites, snapshots) on real maps, re-reading every live object after every step, and evaluating the model on the same history in Coq.",
+        level_note="Trusted: Coq kernel + vm_compute; hand transcription of map.go into VMap.v; Go's map[uint64] modelled as an association list; the tie is differential on generated histories only; single-goroutine use.",
+        technique="Coq refinement proof (sorted-bucket invariant, binary-search correctness, simulation to an association list) + vm_compute correspondence with the Go implementation",
+        quick_n=240, thorough_n=6000, shard=15, mismatch_is_failure=True,
+        assumptions=[
+            "operations on one map are applied one at a time (concurrent use is C20's concern)",
+            "Go's built-in map[uint64] behaves as a finite map (modelled as a hash-ordered association list)",
+        ],
+        trusted_base=["pkg/types/map.go transcribed by hand into theories/Value/VMap.v (table, buckets, binary search, object identity)", COMMON_MODEL],
+    ),
     "C14": dict(
+        level_text="Coq theorems: Equal is an equivalence, Compare a total preorder consistent with it (antisymmetric sign, transitive, zero on equal values), equal values hash alike - for every term of the value model (all kinds, widths, bit patterns incl. NaN/+-0/Inf, any nesting, nil). Tied to pkg/types by a differential run (Equal/Compare/Hash of generated pairs evaluated in Coq by vm_compute, 64-bit hashes compared exactly) plus a direct law checker on triples and a purity probe used to exhibit a failing input.",
+        level_note="Trusted: Coq kernel + vm_compute; hand transcription of pkg/types into Value.v; IEEE comparison modelled by a (sign, magnitude) key; the tie is differential on generated cases only. Purity over a value's lifetime is probed on the implementation and true by construction in the model.",
+        technique="Coq proof by nested structural induction (comparator combinators) + vm_compute correspondence with the Go implementation",
         quick_n=450, thorough_n=12000, shard=60,
         assumptions=[
             "Go float ==,<,> on non-NaN operands is the order of the (sign, magnitude) key of the bit pattern (IEEE-754)",
